@@ -1211,10 +1211,39 @@ impl DhtNetworkManager {
             hex::encode(key)
         );
 
-        let mut seen_peer_ids: HashSet<String> = HashSet::new();
+        // A peer is identified by its DHT key: a connected peer that is also in the routing
+        // table must be named once, under its transport peer id.
+        let mut seen_keys: HashSet<Key> = HashSet::new();
         let mut all_nodes: Vec<DHTNode> = Vec::new();
 
-        // 1. Check local routing table
+        // 1. Connected peers
+        {
+            let peers = self.dht_peers.read().await;
+            for (peer_id, peer_info) in peers.iter() {
+                if !peer_info.is_connected {
+                    continue;
+                }
+                if self.is_local_peer_id(peer_id) {
+                    continue;
+                }
+                let address = match peer_info.addresses.first() {
+                    Some(a) => a.to_string(),
+                    None => continue,
+                };
+                if !seen_keys.insert(peer_info.dht_key) {
+                    continue;
+                }
+                all_nodes.push(DHTNode {
+                    peer_id: peer_id.clone(),
+                    address,
+                    distance: Some(peer_info.dht_key.to_vec()),
+                    reliability: peer_info.reliability_score,
+                    cached_dht_key: Some(DhtKey::from_bytes(peer_info.dht_key)),
+                });
+            }
+        }
+
+        // 2. Routing table entries not already named as a connected peer
         {
             let dht_guard = self.dht.read().await;
             match dht_guard.find_nodes(&DhtKey::from_bytes(*key), count).await {
@@ -1224,7 +1253,7 @@ impl DhtNetworkManager {
                         if self.is_local_peer_id(&id) {
                             continue;
                         }
-                        if seen_peer_ids.insert(id.clone()) {
+                        if seen_keys.insert(*node.id.as_bytes()) {
                             all_nodes.push(DHTNode {
                                 peer_id: id,
                                 address: node.address,
@@ -1238,33 +1267,6 @@ impl DhtNetworkManager {
                 Err(e) => {
                     warn!("find_nodes failed for key {}: {e}", hex::encode(key));
                 }
-            }
-        }
-
-        // 2. Add connected peers
-        {
-            let peers = self.dht_peers.read().await;
-            for (peer_id, peer_info) in peers.iter() {
-                if !peer_info.is_connected {
-                    continue;
-                }
-                if self.is_local_peer_id(peer_id) {
-                    continue;
-                }
-                if !seen_peer_ids.insert(peer_id.clone()) {
-                    continue;
-                }
-                let address = match peer_info.addresses.first() {
-                    Some(a) => a.to_string(),
-                    None => continue,
-                };
-                all_nodes.push(DHTNode {
-                    peer_id: peer_id.clone(),
-                    address,
-                    distance: Some(peer_info.dht_key.to_vec()),
-                    reliability: peer_info.reliability_score,
-                    cached_dht_key: Some(DhtKey::from_bytes(peer_info.dht_key)),
-                });
             }
         }
 
